@@ -17,12 +17,12 @@ from gvmon.monitors import contracts, sqltrace
 RULE = ("files of n in {1,2,3,5,10,11,12,25,40} (rarely 1001-2100) feature lines rendered in one of 48 dialect points (uniform regime: every "
         "line exhibits every dialect feature; sparse regime: arbitrary line shapes, kept only when the reference vote "
         "recovers the dialect), x checklines in {0,1,2,10,n-1,n,n+2} x {file,:memory:} x {error+unique ids, "
-        "create_unique+duplicate ids} x keep_order x sort_attribute_values x {path, gzip path, from_string} x {LF, CRLF}, 4% after an import of the same text with ignore_url_escape_characters on, with '.' coordinates, "
+        "create_unique+duplicate ids} x keep_order x sort_attribute_values x {path, gzip path, file:// URL (plain and .gz), from_string} x {LF, CRLF}, 4% after an import of the same text with ignore_url_escape_characters on, with '.' coordinates, "
         "extra columns, empty attribute columns and interleaved comments/blanks/directives; non-trivial = >= 2 lines and "
         ">= 1 multi-valued or escaped value; distinct = distinct (dialect point, n-vs-checklines class, config) tuples "
         "hashed together with the file text")
 REQUIRED = ["imports", "stored features compared", "byte-identical prints", "reopen comparisons", "re-import comparisons",
-            "sql: INSERT INTO features", "imports from gzip files", "imports from CRLF files",
+            "sql: INSERT INTO features", "imports from gzip files", "imports from CRLF files", "imports from URLs",
             "imports after the same text was imported with ignore_url_escape_characters switched on",
             "imports after an import of the same text failed half-way"]
 REQUIRED_CLASSES = ["fmt=gff3", "fmt=gtf", "fmt=gff2", "fmt=gff3q", "db=file", "db=memory", "strategy=error", "strategy=create_unique",
@@ -69,7 +69,7 @@ def gen_case(rng):
         "kind": "import", "D": D, "regime": regime, "n": n, "checklines": ck,
         "db": rng.choice(["file", "file", "memory"]), "strategy": strategy,
         "keep_order": rng.random() < 0.7, "sort_values": rng.random() < 0.2,
-        "input": rng.choice(["path", "path", "string", "gz"]), "final_newline": rng.random() < 0.85,
+        "input": rng.choice(["path", "path", "string", "gz", "url", "urlgz"]), "final_newline": rng.random() < 0.85,
         "eol": "\r\n" if rng.random() < 0.15 else "\n",
         # the same text was imported earlier in this process while constants.ignore_url_escape_characters was switched on
         "prelude": rng.random() < 0.04,
@@ -119,10 +119,10 @@ def execute(ctx, case):
     lines = F.feature_lines(items, D)
     dbfn = ":memory:" if case["db"] == "memory" else ctx.tmp(".db")
     eol = case.get("eol", "\n")
-    if case["input"] in ("path", "gz"):
+    if case["input"] in ("path", "gz", "url", "urlgz"):
         # line ends are part of the file, not of the lines: CRLF files and gzip files hold the same features
         ftext = text.replace("\n", eol)
-        if case["input"] == "gz":
+        if case["input"] in ("gz", "urlgz"):
             import gzip
             src = ctx.tmp(".gff.gz")
             with gzip.open(src, "wb") as fh:
@@ -135,6 +135,11 @@ def execute(ctx, case):
         if eol != "\n":
             ctx.mon("imports from CRLF files")
         data, from_string = src, False
+        if case["input"] in ("url", "urlgz"):
+            # the documented URL form of the data argument (a file:// URL: nothing is fetched over a network)
+            import pathlib
+            data = pathlib.Path(src).as_uri()
+            ctx.mon("imports from URLs")
     else:
         data, from_string = text, True
     kw = dict(checklines=ck, merge_strategy=case["strategy"], keep_order=case["keep_order"],
